@@ -33,6 +33,13 @@
 (declare-fun oracle (Int Int) Int)
 (declare-fun band32 (Int Int) Int)
 (declare-fun bor32 (Int Int) Int)
+; operators the engine does not interpret (a deterministic function of the operands is all that is known)
+(declare-fun shlU (Int Int) Int)
+(declare-fun shrU (Int Int) Int)
+(declare-fun bxorU (Int Int) Int)
+(declare-fun bandnotU (Int Int) Int)
+(declare-fun runeStr (Int) Str)
+(declare-fun substr (Str Int Int) Str)
 
 ;;@ axiom STR-len-nonneg trigger=clen :: T-STR: character counts are non-negative
 (assert (forall ((s Str)) (! (<= 0 (clen s)) :pattern ((clen s)))))
